@@ -1,7 +1,10 @@
-"""C35 — lifecycle states: the five InstanceState predicates are a partition (proved), transitions bounded (later)."""
+"""C35 — lifecycle states: the five InstanceState predicates are a partition (proved); the transitions out of the session
+(InstanceState._detach_states: expunge / close / rollback of new objects) with exactly the matching events (proved); all other
+transitions in the bounded complement."""
 import time
 import z3
 import contracts.state  # noqa: F401
+import contracts.state_detach  # noqa: F401
 from pyvc.contract import FUNCS
 from vlib.proof import run_proofs
 
@@ -80,5 +83,6 @@ def run(run, tier, seed, args):
         _more_bounded(run, tier, seed)
     run.assumptions += [
         "`_attached` is read as a boolean attribute (it is a property over session_id and the global _sessions registry)",
-        "outside this check: transitions and events (Session.add/delete/flush/commit/rollback/expunge/...) — see DESIGN §5 C35; only the state partition is proved",
+        "InstanceState._detach_states (the transitions out of the session) is proved for duplicate-free state lists: nothing stays attached, keys are dropped exactly with to_transient, and the events fired (ghost log, order-insensitive) are exactly persistent_to_detached / persistent_to_transient / deleted_to_detached / pending_to_transient for the states that were persistent / deleted / pending and whose event has a listener; the case to_transient with a flushed-deleted state is excluded by precondition (no such edge in the documented automaton; the bounded complement's known findings)",
+        "all other transitions and events (Session.add/delete/flush/commit/rollback/...) are in the bounded complement",
     ]
